@@ -743,3 +743,69 @@ func (s *ctlBuilder) GoodSeenAlways(d ctlDoc) {
 		s.FieldDocs[k]++
 	}
 }
+
+// KEY-NIL-AMBIGUOUS
+
+// Iterator stands in for the FST iterator: Current() hands out a nil key for
+// the empty key as well as when it is exhausted.
+type Iterator interface {
+	Current() ([]byte, uint64)
+	Next() error
+}
+
+type lowTracker struct {
+	keys [][]byte
+	vals []uint64
+	low  []byte
+	idxs []int
+}
+
+func (t *lowTracker) load(itrs []Iterator) {
+	for i, it := range itrs {
+		t.keys[i], t.vals[i] = it.Current()
+	}
+}
+
+func (t *lowTracker) BadNilKeyMeansUnset() {
+	t.low = nil
+	t.idxs = t.idxs[:0]
+	for i, k := range t.keys {
+		if k == nil && t.vals[i] == 0 {
+			continue
+		}
+		if c := compareCtl(k, t.low); c < 0 || t.low == nil {
+			t.low = k
+			t.idxs = append(t.idxs[:0], i)
+		} else if c == 0 {
+			t.idxs = append(t.idxs, i)
+		}
+	}
+}
+
+func (t *lowTracker) GoodCountMeansUnset() {
+	t.low = nil
+	t.idxs = t.idxs[:0]
+	for i, k := range t.keys {
+		if k == nil && t.vals[i] == 0 {
+			continue
+		}
+		if c := compareCtl(k, t.low); c < 0 || len(t.idxs) == 0 {
+			t.low = k
+			t.idxs = append(t.idxs[:0], i)
+		} else if c == 0 {
+			t.idxs = append(t.idxs, i)
+		}
+	}
+}
+
+func compareCtl(a, b []byte) int {
+	for i := 0; i < len(a) && i < len(b); i++ {
+		if a[i] != b[i] {
+			if a[i] < b[i] {
+				return -1
+			}
+			return 1
+		}
+	}
+	return len(a) - len(b)
+}
